@@ -5,6 +5,8 @@ package main
 
 import (
 	"fmt"
+	"io/ioutil"
+	golog "log"
 	"os"
 
 	"github.com/frankkopp/FrankyGo/internal/config"
@@ -15,6 +17,7 @@ var commands = map[string]func(args []string) int{}
 func register(name string, f func(args []string) int) { commands[name] = f }
 
 func quiet() {
+	golog.SetOutput(ioutil.Discard)
 	config.LogLevel = 0
 	config.SearchLogLevel = 0
 	config.Settings.Search.UseBook = false
